@@ -147,6 +147,18 @@ pub fn draw_h(rng: &mut Rng, d: &Dg) -> Dg {
     let n = d.order();
     let contiguous = d.is_contiguous();
     let verts: Vec<usize> = d.v.iter().copied().collect();
+    if !contiguous && rng.chance(1, 4) {
+        // H on the contiguous ids 0..k (some of them isolated, some of them not vertices of D) with arcs taken
+        // from D: "V(H) subset of V(D)" then fails or holds through vertices that carry no arc at all
+        let k = rng.range(1, n + 1);
+        let mut h = Dg::empty(k);
+        for &(u, w) in &d.a {
+            if u < k && w < k && rng.chance(3, 4) {
+                let _ = h.a.insert((u, w));
+            }
+        }
+        return h;
+    }
     match rng.below(8) {
         0 => d.clone(),
         1 => {
@@ -186,7 +198,13 @@ pub fn draw_h(rng: &mut Rng, d: &Dg) -> Dg {
         4 => {
             // one extra vertex (isolated, or with an arc)
             let mut h = d.clone();
-            let x = if contiguous { n } else { verts[n - 1] + 1 + rng.below(3) };
+            let x = if contiguous {
+                n
+            } else if verts[n - 1] < usize::MAX - 4 {
+                verts[n - 1] + 1 + rng.below(3)
+            } else {
+                (0..).find(|x| !d.v.contains(x)).unwrap()
+            };
             let _ = h.v.insert(x);
             if rng.chance(1, 2) {
                 let _ = h.a.insert((verts[0], x));
